@@ -14,6 +14,7 @@ import (
 	"strings"
 
 	"github.com/cosmos/cosmos-sdk/store/prefix"
+	sdk "github.com/cosmos/cosmos-sdk/types"
 	"github.com/cosmos/cosmos-sdk/types/module"
 	upgradetypes "github.com/cosmos/cosmos-sdk/x/upgrade/types"
 	"github.com/medibloc/panacea-core/v2/app"
@@ -206,6 +207,32 @@ func genUpgradeHistory(r *RNG, nBlocks int) []string {
 			}
 			pre = append(pre, "ENDTX")
 		}
+		for i, l := range inner {
+			if strings.HasPrefix(l, "BLOCK ") {
+				inner = append(inner[:i+1], append(pre, inner[i+1:]...)...)
+				break
+			}
+		}
+	}
+	if kind == 1 {
+		// PNFT data a "normalising" migration would stumble over: names with surrounding whitespace, a token that has moved away
+		// from its creator, a denom that has moved away from its creator
+		A, B := mkAcct(0).Addr, mkAcct(1).Addr
+		tx := func(signer sdk.AccAddress, msgs ...string) []string {
+			l := []string{fmt.Sprintf("TX %s %x", toks(feeDenom)+":1000", []byte(signer))}
+			for _, m := range msgs {
+				l = append(l, "M "+m)
+			}
+			return append(l, "ENDTX")
+		}
+		var pre []string
+		pre = append(pre, tx(A, joinSp("pnft.CreateDenom", toks("zz1"), toks(" padded "), toks("S"), toks(""), toks(""), toks(""), toks(A.String()), toks("")),
+			joinSp("pnft.Mint", toks("zz1"), toks("t1"), toks(" name "), toks("d"), toks(""), toks(""), toks(""), toks(A.String())),
+			joinSp("pnft.Mint", toks("zz1"), toks("t2"), toks("name\t"), toks(""), toks(""), toks(""), toks(""), toks(A.String())),
+			joinSp("pnft.Transfer", toks("zz1"), toks("t1"), toks(A.String()), toks(B.String())))...)
+		pre = append(pre, tx(A, joinSp("pnft.CreateDenom", toks("zz2"), toks("N"), toks("S"), toks(""), toks(""), toks(""), toks(A.String()), toks("")),
+			joinSp("pnft.Mint", toks("zz2"), toks("t1"), toks("\nname"), toks(""), toks(""), toks(""), toks(""), toks(A.String())),
+			joinSp("pnft.TransferDenom", toks("zz2"), toks(A.String()), toks(B.String())))...)
 		for i, l := range inner {
 			if strings.HasPrefix(l, "BLOCK ") {
 				inner = append(inner[:i+1], append(pre, inner[i+1:]...)...)
